@@ -352,6 +352,114 @@ func RunC02(c *Ctx) {
 		}
 		seekTable(c, r, props, idx, t, data, rd)
 		closer()
+		if idx%8 == 2 {
+			flakySourceSweep(c, idx, t, data)
+		}
+	}
+}
+
+// flakySource is a BlockSource whose FailAt-th ReadBlock fails.
+type flakySource struct {
+	reftable.ByteBlockSource
+	failAt, reads int
+	failed        bool
+}
+
+var errFlakyRead = fmt.Errorf("harness: injected read error")
+
+func (f *flakySource) ReadBlock(off uint64, size int) ([]byte, error) {
+	f.reads++
+	if f.failAt > 0 && f.reads == f.failAt {
+		f.failed = true
+		return nil, errFlakyRead
+	}
+	return f.ByteBlockSource.ReadBlock(off, size)
+}
+
+// flakySourceSweep: every read of the block source fails once in turn while the table is
+// opened, scanned and sought. Each answer must be an error or exactly the answer of the
+// undisturbed table: a read error never turns into a silently shorter or different result
+// (a compaction reading its inputs would otherwise drop records without noticing).
+func flakySourceSweep(c *Ctx, idx int, t *gen.Table, data []byte) {
+	r := c.Rep
+	wantRefs, wantLogs := t.Expected()
+	var keys []string
+	for i := 0; i < len(wantRefs); i += 1 + len(wantRefs)/6 {
+		keys = append(keys, wantRefs[i].Name)
+	}
+	type q struct {
+		kind, key string
+	}
+	qs := []q{{"scanrefs", ""}, {"scanlogs", ""}}
+	for _, k := range keys {
+		qs = append(qs, q{"seekref", k}, q{"seeklog", k})
+	}
+	run := func(src *flakySource) (answers []string, errs []error) {
+		rd, err := reftable.NewReader(src, "flaky")
+		if err != nil {
+			return nil, []error{err}
+		}
+		for _, x := range qs {
+			var out string
+			err := rtx.Safe(func() error {
+				switch x.kind {
+				case "scanrefs", "seekref":
+					it, err := rd.SeekRef(x.key)
+					if err != nil {
+						return err
+					}
+					rs, err := rtx.DrainRefs(it, 0)
+					out = gen.Dump(rs, nil)
+					return err
+				default:
+					it, err := rd.SeekLog(x.key, math.MaxUint64)
+					if err != nil {
+						return err
+					}
+					ls, err := rtx.DrainLogs(it, 0)
+					out = gen.Dump(nil, ls)
+					return err
+				}
+			})
+			answers = append(answers, out)
+			errs = append(errs, err)
+		}
+		return
+	}
+	base := &flakySource{ByteBlockSource: reftable.ByteBlockSource{Source: data}}
+	want, werrs := run(base)
+	for _, e := range werrs {
+		if e != nil {
+			return // the undisturbed table is judged by the main part of the check
+		}
+	}
+	_ = wantLogs
+	step := 1 + base.reads/30
+	for k := 1; k <= base.reads; k += step {
+		src := &flakySource{ByteBlockSource: reftable.ByteBlockSource{Source: data}, failAt: k}
+		got, errs := run(src)
+		r.Evaluations++
+		r.Count("reader_runs_with_failing_read", 1)
+		if !src.failed {
+			continue
+		}
+		sawErr := false
+		for i := range errs {
+			cs := mkCase(c, "GenSeekTable", idx, t, fmt.Sprintf("ReadBlock #%d of %d fails", k, base.reads))
+			switch {
+			case errs[i] != nil && rtx.IsPanic(errs[i]):
+				r.Violate([]string{"C02"}, "reader-panics-after-failed-read|"+PanicSig(errs[i]), fmt.Sprintf("ReadBlock #%d of %d failed: %s %q panicked: %s", k, base.reads, qs[i].kind, qs[i].key, PanicDetail(errs[i])), cs)
+				return
+			case errs[i] != nil:
+				sawErr = true
+			case len(got) == len(want) && got[i] != want[i]:
+				r.Violate([]string{"C02"}, "read-error-turned-into-wrong-answer|"+qs[i].kind, fmt.Sprintf("ReadBlock #%d of %d failed, %s %q returned no error but a different answer than the undisturbed table: %s", k, base.reads, qs[i].kind, qs[i].key, gen.DiffLines(want[i], got[i])), cs)
+				return
+			}
+		}
+		if sawErr {
+			r.Nontrivial(rep.Hash("flakyread", fmt.Sprint(c.Seed), fmt.Sprint(idx), fmt.Sprint(k)))
+		}
 	}
 }
 
